@@ -83,9 +83,11 @@ func profileOf(name string) profileCfg {
 	case "queries":
 		c.minFilters = 5
 		m["query"], m["qopen"], m["filter"], m["setrel"], m["twinq"], m["staleq"] = 4, 4, 3, 2, 4, 6
+		m["tuplescn"] = 5
 	case "cache":
 		c.minFilters = 4
 		m["freg"], m["query"], m["qopen"], m["setrel"], m["del"], m["shrink"], m["reset"], m["filter"] = 6, 4, 3, 2, 2, 3, 3, 2
+		m["tuplescn"] = 5
 	case "lock":
 		c.maxOpen = 70
 		m["qopen"], m["locked"], m["freg"], m["relbatch"], m["obs"] = 12, 5, 2, 3, 3
@@ -99,6 +101,7 @@ func profileOf(name string) profileCfg {
 		c.typedBias = 0.95
 		c.allComps = true
 		m["typedwide"] = 12
+		m["tuplescn"] = 6
 	case "shrink":
 		m["shrink"], m["del"], m["delb"], m["newb"], m["setrel"], m["freg"], m["query"] = 10, 3, 3, 3, 2, 2, 2
 	case "reset":
@@ -475,6 +478,10 @@ func (g *Gen) newObserver() {
 			}
 		}
 	}
+	if (ev == "addrel" || ev == "remrel") && g.chance(0.06) {
+		// invalid: a relation observer observing a non-relation component (registration panics)
+		pool = names
+	}
 	if fs := g.subset(pool, 0, 2); len(fs) > 0 && g.chance(0.7) {
 		line += " for=" + joinComps(fs)
 	}
@@ -503,6 +510,11 @@ func (g *Gen) newObserver() {
 	if g.chance(0.08) && g.nextObs > 0 {
 		script = append(script, fmt.Sprintf("reg:o%d", g.pick(g.nextObs)))
 	}
+	// un-register the observer created next (often the last one in the same event's list)
+	pairNext := g.chance(0.12)
+	if pairNext {
+		script = append(script, fmt.Sprintf("unreg:o%d", l+1))
+	}
 	if len(script) > 0 {
 		line += " script=" + strings.Join(script, ",")
 	}
@@ -510,6 +522,17 @@ func (g *Gen) newObserver() {
 	g.obsLabels = append(g.obsLabels, l)
 	if g.chance(0.9) {
 		g.emit(fmt.Sprintf("oreg o%d", l))
+		if !g.h.lastOK {
+			g.emit("stats")
+		}
+	}
+	if pairNext {
+		// a second observer of the same event type, registered right behind this one
+		l2 := g.nextObs
+		g.nextObs++
+		g.emit(fmt.Sprintf("obs o%d %s script=look", l2, ev))
+		g.obsLabels = append(g.obsLabels, l2)
+		g.emit(fmt.Sprintf("oreg o%d", l2))
 	}
 }
 
@@ -781,6 +804,84 @@ func (g *Gen) opRelBatchNoFn() bool {
 		g.ents = append(g.ents, l+i)
 	}
 	g.emit(fmt.Sprintf("newb e%d %d m nofn c%d>%s", l, cnt, n, g.pickTarget(0.02)))
+	return true
+}
+
+// opTupleScenario: a typed filter of a generated arity over plain components; a relation
+// archetype with two tables (two targets) containing them is created first, a non-relation
+// archetype containing them afterwards; then the filter is queried, cached and uncached.
+func (g *Gen) opTupleScenario() bool {
+	var keys [][]int
+	for k := range filterCtors {
+		var t []int
+		ok := true
+		for _, part := range strings.Split(k, ",") {
+			n := int(part[0] - 'a')
+			if g.h.comps[n] == nil || g.isRel(n) {
+				ok = false
+			}
+			t = append(t, n)
+		}
+		if ok && len(t) <= 4 {
+			keys = append(keys, t)
+		}
+	}
+	var rels, others []int
+	for _, n := range g.regNames() {
+		if g.isRel(n) {
+			rels = append(rels, n)
+		}
+	}
+	if len(keys) == 0 || len(rels) == 0 {
+		return false
+	}
+	sort.Slice(keys, func(i, j int) bool { return fmt.Sprint(keys[i]) < fmt.Sprint(keys[j]) })
+	t := keys[g.pick(len(keys))]
+	in := map[int]bool{}
+	for _, n := range t {
+		in[n] = true
+	}
+	for _, n := range g.regNames() {
+		if !in[n] && !g.isRel(n) {
+			others = append(others, n)
+		}
+	}
+	r := rels[g.pick(len(rels))]
+	f := g.nextFilter
+	g.nextFilter++
+	g.emit(fmt.Sprintf("filter f%d tuple with=%s", f, joinComps(t)))
+	if _, ok := g.h.filters[f]; !ok {
+		return true
+	}
+	g.filterLabels = append(g.filterLabels, f)
+	g.typedFilters = append(g.typedFilters, f)
+	mk := func(extra string) {
+		l := g.nextEnt
+		g.nextEnt++
+		g.ents = append(g.ents, l)
+		g.emit(strings.TrimSpace(fmt.Sprintf("new e%d u %s %s", l, g.compTokens(t, true, 0, 0), extra)))
+	}
+	alive := g.aliveLabels()
+	t1, t2 := "z", "z"
+	if len(alive) > 0 {
+		t1 = fmt.Sprintf("e%d", alive[g.pick(len(alive))])
+	}
+	if len(alive) > 1 {
+		t2 = fmt.Sprintf("e%d", alive[g.pick(len(alive))])
+	}
+	mk(fmt.Sprintf("c%d:%d>%s", r, g.val(), t1))
+	mk(fmt.Sprintf("c%d:%d>%s", r, g.val(), t2))
+	mk(fmt.Sprintf("c%d:%d>%s", r, g.val(), "z"))
+	if len(others) > 0 {
+		mk(fmt.Sprintf("c%d:%d", others[g.pick(len(others))], g.val()))
+	}
+	mk("")
+	g.emit(fmt.Sprintf("query f%d", f))
+	if g.chance(0.5) {
+		g.emit(fmt.Sprintf("freg f%d", f))
+		g.h.filters[f].cached = true
+		g.emit(fmt.Sprintf("query f%d", f))
+	}
 	return true
 }
 
@@ -1064,7 +1165,13 @@ func (g *Gen) opXchgBatch() bool {
 		if _, ok := mapperCtors[tupleKey(cs)]; ok && len(add) > 0 {
 			rem := ""
 			if _, ok2 := exchangeCtors[tupleKey(cs)]; ok2 && len(fo.names) > 0 && g.chance(0.4) {
-				rem = fmt.Sprintf(" -c%d", fo.names[g.pick(len(fo.names))])
+				pickRem := fo.names[g.pick(len(fo.names))]
+				for _, n := range fo.names {
+					if g.isRel(n) && g.chance(0.7) {
+						pickRem = n // several source tables (one per target) collapse into one destination
+					}
+				}
+				rem = fmt.Sprintf(" -c%d", pickRem)
 			}
 			var parts []string
 			for _, tok := range strings.Fields(g.compTokens(add, true, 0.02, 0.03)) {
@@ -1436,6 +1543,7 @@ func (g *Gen) Run(nseq, nops int) {
 			{"typedwide", 1, g.opTypedWide},
 			{"twinq", 2, g.opTwinQueries},
 			{"staleq", 1, g.opStaleTargetQuery},
+			{"tuplescn", 1, g.opTupleScenario},
 			{"locked", 1, func() bool { g.emit("locked"); return true }},
 		}
 		total := 0
